@@ -69,6 +69,13 @@ def AppendSpec (zero : Nat → α) (a b out : MeshVal α) : Prop :=
 instance (zero : Nat → α) (a b out : MeshVal α) : Decidable (AppendSpec zero a b out) := by
   unfold AppendSpec; infer_instance
 
+/-- what one copy of `repeat.Mesh` contributes to the corner list of key `k`: the corners of `m` with the
+    position attribute mapped by `φ` (nothing if the mesh has no position attribute) -/
+def copyCorners (zero : Nat → α) (pos : AttrKey) (m : MeshVal α) (k : AttrKey) (φ : α → α) : List (Option α) :=
+  match m.mapAttr pos φ with
+  | some c => cornersOrZero zero c k
+  | none => []
+
 /-- a transform of attribute `k`: indices, topology, materials and every other attribute untouched -/
 def FrameSpec (k : AttrKey) (m out : MeshVal α) : Prop :=
   SameFrame m out ∧ out.indices = m.indices ∧
